@@ -51,12 +51,17 @@ func NewURLKeyer() URLKeyer { return URLKeyerFunc(makeURLKey) }
 //   - RFC 7230 §2.7.3: https://datatracker.ietf.org/doc/html/rfc7230#section-2.7.3
 func makeURLKey(u *url.URL) string {
 	if u.Opaque != "" {
+		// The query is sent after an opaque request target as well ([url.URL.RequestURI]).
+		target := u.Opaque
+		if u.RawQuery != "" {
+			target += "?" + u.RawQuery
+		}
 		if u.Host == "" {
-			return u.Opaque
+			return target
 		}
 		// A request whose target is given in opaque form is still sent to u.Host:
 		// scheme and authority stay part of the key (a space cannot occur in either).
-		return u.Scheme + "://" + strings.ToLower(u.Host) + " " + u.Opaque
+		return u.Scheme + "://" + strings.ToLower(u.Host) + " " + target
 	}
 	// RFC 3986 §6.2.2.3: Path normalization (dot-segment removal) is handled by
 	// [url.URL.ResolveReference], which uses the RFC 3986 §5.2.4 algorithm.
